@@ -73,6 +73,8 @@ pub const ROUTES: &[Route] = &[
     r("POST", "/api/v1/cas/{ca}/children/{child}/import", Some("ca-admin"), true, Some("child_import"), true),
     r("GET", "/api/v1/cas/{ca}/history/commands", Some("ca-read"), true, None, false),
     r("GET", "/api/v1/cas/{ca}/history/commands/{n}/{n}", Some("ca-read"), true, None, false),
+    r("GET", "/api/v1/cas/{ca}/history/commands/{n}/{n}/{n}", Some("ca-read"), true, None, false),
+    r("GET", "/api/v1/cas/{ca}/history/commands/{n}/{n}/{n}/{n}", Some("ca-read"), true, None, false),
     r("GET", "/api/v1/cas/{ca}/history/details/{n}", Some("ca-read"), true, None, false),
     r("POST", "/api/v1/cas/{ca}/id", Some("ca-update"), true, None, true),
     r("GET", "/api/v1/cas/{ca}/id/child_request.json", Some("ca-read"), true, None, false),
